@@ -1274,7 +1274,7 @@ Definition op_ok (s : mstate) (o : op) : Prop :=
   match o with
   | OSet _ (Some tgt) init _ _ => In tgt (t_objs (m_topo s)) /\ match init with Some l => loc_ok (m_topo s) l | None => True end
   | ORetopo t' => shrinks (m_topo s) t'
-  | OISet _ _ _ _ _ _ | OXml _ => False
+  | OISet _ _ _ _ _ _ | OXml _ | OXmlNoMem _ => False
   | _ => True
   end.
 
@@ -1344,6 +1344,7 @@ Proof.
   - destruct K.
   - now apply retopo_Inv.
   - now apply dup_Inv.
+  - destruct K.
   - destruct K.
 Qed.
 
@@ -1634,6 +1635,7 @@ Proof.
     destruct (a_conv a); exact H.
   - unfold AllOk in *. cbn [dup_switch m_attrs]. apply Forall_forall. intros b Hb.
     apply in_map_iff in Hb. destruct Hb as [a [<- Ha]]. rewrite Forall_forall in H. exact (H a Ha).
+  - destruct K.
   - destruct K.
 Qed.
 
